@@ -31,6 +31,21 @@ func vfBombInput(shape string, depth int) []byte {
 	case "objpad":
 		open, close = "{ \"k\" : ", " }"
 	}
+	// flat shapes: `depth` repetitions of something that is NOT nesting (the stack must not grow with them either)
+	flat := map[string][3]string{
+		"flatesc": {`["`, `\n`, `"]`}, "flatkey": {`{"`, `\t`, `":1}`}, "flatuni": {`["`, `\u00e9`, `"]`},
+		"flatnum": {`[`, `7`, `]`}, "flatws": {`[`, " ", `]`}, "flatelems": {`[0`, `,0`, `]`},
+	}
+	if fl, ok := flat[shape]; ok {
+		var fb bytes.Buffer
+		fb.Grow(depth*len(fl[1]) + 16)
+		fb.WriteString(fl[0])
+		for i := 0; i < depth; i++ {
+			fb.WriteString(fl[1])
+		}
+		fb.WriteString(fl[2])
+		return fb.Bytes()
+	}
 	var b bytes.Buffer
 	b.Grow(depth*(len(open)+len(close)) + 8)
 	for i := 0; i < depth; i++ {
@@ -134,6 +149,15 @@ func (g *vfGen) genC16() {
 			if g.thorough || sh == "arr" || sh == "obj" {
 				g.emit(vfOp("jany", in))
 			}
+		}
+	}
+	// long flat documents under the same small stack: valid JSON whose length, not its nesting, is large
+	for _, sh := range []string{"flatesc", "flatkey", "flatuni", "flatnum", "flatws", "flatelems"} {
+		for _, d := range []int{1000, 400000} {
+			g.emit(vfOp("bomb", sh, d, 0))
+		}
+		if g.thorough {
+			g.emit(vfOp("bomb", sh, 5000000, 0))
 		}
 	}
 	// bombs under an 8 MiB stack
